@@ -26,13 +26,13 @@ CHECKS = {
  "C08": dict(cat="model_checking", tech="explicit-state BFS over write/compaction request sequences on the real backend; floor oracle at every revision after every step, through the compacting node and a second reading node; plus preemption-bounded schedule exploration of a compaction against range reads below its revision and of two overlapping compactions",
    text="All sequences up to the stated depth of writes and compaction requests (zero, every revision, above current; hence every increasing/decreasing/repeated order), de-duplicated on model+storage state; after every step List, limited List and streamed range at every revision must be refused below the floor and served above, and the stored record must equal the floor.",
    ref="4/C08"),
- "C10": dict(cat="exploration", tech="bounded-exhaustive input enumeration of the pure encoding functions (all keys up to length 4 over a 6-7 byte alphabet x 9 revisions; all pairs, all triples)",
+ "C10": dict(cat="exploration", tech="bounded-exhaustive input enumeration of the pure encoding functions (all keys up to length 4 over a 6-7 byte alphabet x 9 revisions; all pairs, all triples) and of the production compaction intervals for 8 node configurations against every record",
    text="The space of keys/revisions/bounds is finite and enumerated completely: round trip, order for all pairs, range and prefix bounds for all triples.",
    ref="4/C10", note="Trusted: bytes between the sampled alphabet bytes behave like their neighbours (the functions only copy and compare bytes)."),
  "C11": dict(cat="model_checking", tech="explicit-state search of each storage adapter against a sorted-map reference model (27 states x all batches x all iterator shapes)",
    text="From each of the 27 states every single-operation and ordered two-operation batch (thorough: every ordered three-operation batch as well), Get/Del/DelCurrent (fresh and stale iterator) and every iterator shape (both directions, limits 0-2, bounds on, between, outside and proper prefixes of stored keys, with and without a stored key that extends another) is executed on memkv, badger, tikv-mock and each behind the metrics wrapper; result class and full contents are compared with the model after every transition.",
    ref="4/C11"),
- "C12": dict(cat="model_checking", tech="explicit-state BFS over sequential request histories, each executed on four engines; pairwise transcript comparison (differential oracle)",
+ "C12": dict(cat="model_checking", tech="explicit-state BFS over sequential request histories, each executed on four engines; pairwise transcript comparison (differential oracle); the alphabet includes a compaction with a client write injected at its first deletion",
    text="Every history up to the stated depth over a 15-operation alphabet is executed on memkv, badger, tikv-mock and metrics(badger); success flags, relative revisions, failure-branch values, reads at every revision and watch events must agree.",
    ref="4/C12"),
  "C05": dict(cat="model_checking", tech="stateless model checking of the real code: preemption-bounded DFS with happens-before state cache over watcher / writers / sequencer / hub / filter goroutines; gap-free-prefix oracle against ground truth",
@@ -50,7 +50,7 @@ CHECKS = {
  "C14": dict(cat="model_checking", tech="stateless model checking of the real resource lock: all schedules at engine-call granularity (unbounded for 2 candidates x 1 round) with state cache; oracle on the recorded engine trace",
    text="Every interleaving of the get/create/update steps of 2-3 candidates over one store, from an absent and from a held record, on memkv, badger and tikv-mock; at most one create takes effect and every effective update was conditioned on exactly the previously stored bytes.",
    ref="4/C14"),
- "C15": dict(cat="fault_enumeration", tech="exhaustive enumeration of old-leader histories with a stop (crash) after every prefix, followed by a take-over through the real lock and the production OnStartedLeading code; storage scan oracle",
+ "C15": dict(cat="fault_enumeration", tech="exhaustive enumeration of old-leader histories with a stop (crash) after every prefix, followed by a take-over through the real lock and the production OnStartedLeading code; storage scan oracle; plus explicit-state BFS over histories of the real revision allocator alone (deal, commit, take-over with revisions outstanding)",
    text="Every old-leader history up to depth 3-4 over a 10-operation alphabet (incl. 1/10/100 failed writes and lock renewals) on memkv, badger and tikv-mock with a fresh database each, the new leader being either a node started afterwards or a standby that polled the lock and served follower reads during the old term; the new leader's first revisions must exceed every stored revision, guarded writes must work and List must be complete.",
    ref="4/C15"),
  "C16": dict(cat="model_checking", tech="explicit-state BFS over Kubernetes-shaped transaction histories through the real etcd RPC server against an etcd reference model, plus exhaustive enumeration of a transaction grammar (~21 000 shapes x 3 store states); plus preemption-bounded schedule exploration of a watch opened at a past revision against concurrent updates",
